@@ -416,7 +416,7 @@ def tableform_derivs(chk, P, rule, clauses=("derivs",)):
     evaluated on concrete knots with symbolic y values - at the knots, outside the data and, with x confined to one knot
     interval at a time, between them"""
     for label, tf in F.tableform_classes(P):
-        if tf.lookup("interpolant") is not None:
+        if is_library_wrapper(P, tf):
             if "derivs" in clauses:
                 _wrapper_derivs(chk, P, rule, label, tf)
         else:
@@ -493,34 +493,70 @@ def _tableform_on_knots(chk, P, rule, label, tf, clauses):
                         J.sym_intervals = {}
 
 
+def _wrapper_leaves(J, v):
+    """[(conditions, kind, path)] of the value a wrapper returns at x: kind 'zero' | 'app' (path applied to x) | 'other'"""
+    out = []
+    for conds, leaf in phi_leaves(v):
+        if isinstance(leaf, Num) and leaf.rf.is_zero():
+            out.append((conds, "zero", None))
+            continue
+        hit = None
+        if isinstance(leaf, Num):
+            for a in leaf.rf.atoms():
+                fn = getattr(a, "fn", None)
+                if fn is not None and ep.equal(leaf.rf, ep.app(fn, [ep.sym("x")]))[0]:
+                    hit = fn
+        out.append((conds, "app" if hit is not None else "other", hit if hit is not None else leaf))
+    return out
+
+
+def is_library_wrapper(P, tf):
+    """does the class evaluate a library interpolant built from its data - every value it can return at x is 0 or
+    <object made by a library call>(x)?"""
+    J = F.make_interp(P)
+    try:
+        inst = J.instantiate(tf, [W.param("x"), W.param("y")], {}, None)
+        lv = _wrapper_leaves(J, J.call(inst, [Num(ep.sym("x"))], {}))
+    except (AnalysisError, RaiseSignal):
+        return False
+    return bool(lv) and all(k in ("zero", "app") for _, k, _ in lv) and any(k == "app" and "extcall" in repr(p) for _, k, p in lv)
+
+
 def _wrapper_derivs(chk, P, rule, label, tf):
-    r = Num(ep.sym("r"))
-    # table form: derivative objects
+    """value, deriv and deriv2 distinguish the same cases; where the value is 0 the derivatives are 0, where it is S(x) for a
+    library object S they are S.derivative()(x) and S.derivative().derivative()(x)"""
     J = F.make_interp(P)
     tag = "tableform" if label == "cubic_spline" else "tableform:" + label
     inst = J.instantiate(tf, [W.param("x"), W.param("y")], {}, None)
-    # through the public surface: the documented .interpolant property and the three evaluation methods
-    interp = J.getattr(inst, "interpolant")
     site = tf.site_of("__init__")
     x = Num(ep.sym("x"))
-    got = {}
-    for meth in ("__call__", "deriv", "deriv2"):
-        v = J.call(J.getattr(inst, meth), [x], {})
-        got[meth] = v
-    ipath = interp.path if isinstance(interp, Opaque) else None
-    dpath = ("call", ("attr", ipath, "derivative"), ())
-    d2path = ("call", ("attr", dpath, "derivative"), ())
+    got = dict((meth, _wrapper_leaves(J, J.call(J.getattr(inst, meth), [x], {}))) for meth in ("__call__", "deriv", "deriv2"))
+    base = got["__call__"]
 
-    def is_app(v, path):
-        return ipath is not None and isinstance(v, Num) and ep.equal(v.rf, ep.app(path, [ep.sym("x")]))[0]
-    chk.ob(rule, "table form %r: deriv evaluates interpolant.derivative() (first derivative, no order argument)" % label, is_app(got["deriv"], dpath),
-           site=site, found=got["deriv"], expect="interpolant.derivative()(x)", key=rule + "|%s|deriv" % tag)
-    chk.ob(rule, "table form %r: deriv2 evaluates interpolant.derivative().derivative() (first derivative of the first derivative)" % label,
-           is_app(got["deriv2"], d2path), site=site, found=got["deriv2"], expect="interpolant.derivative().derivative()(x)",
-           key=rule + "|%s|deriv2" % tag)
-    for meth, path in (("__call__", ipath), ("deriv", dpath), ("deriv2", d2path)):
-        chk.ob(rule, "table form %s evaluates its own spline object at the argument x" % meth, is_app(got[meth], path),
-               site=tf.lookup(meth).site(), found=got[meth], expect="<spline object>(x)", key=rule + "|%s|%s-eval" % (tag, meth))
+    def dpath(p, order):
+        for _ in range(order):
+            p = ("call", ("attr", p, "derivative"), ())
+        return p
+    for meth, order, what in (("deriv", 1, "interpolant.derivative() (first derivative, no order argument)"),
+                              ("deriv2", 2, "interpolant.derivative().derivative() (first derivative of the first derivative)")):
+        lv = got[meth]
+        ok = [c for c, _, _ in lv] == [c for c, _, _ in base]
+        if ok:
+            for (c, k0, p0), (_, k1, p1) in zip(base, lv):
+                if k0 == "zero":
+                    ok = ok and k1 == "zero"
+                elif k0 == "app":
+                    ok = ok and k1 == "app" and ep.equal(ep.app(p1, [ep.sym("x")]), ep.app(dpath(p0, order), [ep.sym("x")]))[0]
+                else:
+                    ok = False
+        chk.ob(rule, "table form %r: %s evaluates %s wherever the value is the interpolant, and is 0 where the value is 0" % (label, meth, what),
+               ok, site=site, found=[(k, p) for _, k, p in lv], expect="%s(x) in the cases of __call__" % what.split(" ")[0],
+               key=rule + "|%s|%s" % (tag, meth))
+    for meth in ("__call__", "deriv", "deriv2"):
+        lv = got[meth]
+        ok = all(k in ("zero", "app") for _, k, _ in lv) and any(k == "app" for _, k, _ in lv)
+        chk.ob(rule, "table form %s evaluates its own library object at the argument x (or returns 0 outside its range)" % meth, ok,
+               site=tf.lookup(meth).site(), found=[(k, p) for _, k, p in lv], expect="<library object>(x)", key=rule + "|%s|%s-eval" % (tag, meth))
 
 
 def force(chk, P):
